@@ -11,6 +11,7 @@ from __future__ import annotations
 
 import json
 import random
+import re
 from fractions import Fraction
 
 from checks import c01
@@ -49,8 +50,102 @@ def vec_ret(w, mset, row):
     return v
 
 
+def _chain_job(args):
+    arch, wl, metrics, d = args
+    import os, traceback
+    try:
+        import functools, operator
+        from accelforge.frontend.spec import Spec
+        from accelforge.mapper import Metrics
+        from accelforge.mapper.FFM.main import map_workload_to_arch
+        from accelforge.util.parallel import set_n_parallel_jobs
+        from checks import c14
+        set_n_parallel_jobs(1)
+        os.makedirs(d, exist_ok=True)
+        os.chdir(d)
+        tag = "c%d" % os.getpid()
+        pa, pw = os.path.join(d, tag + "_a.yaml"), os.path.join(d, tag + "_w.yaml")
+        open(pa, "w").write(arch)
+        open(pw, "w").write(wl)
+        spec = Spec.from_yaml(pa, pw)
+        spec.mapper.metrics = functools.reduce(operator.or_, [getattr(Metrics, m) for m in metrics])
+        r = map_workload_to_arch(spec, print_progress=False)
+        return {"rows": c14._rows(r)}
+    except Exception as e:
+        return {"exception": "%s: %s" % (type(e).__name__, e), "traceback": traceback.format_exc()[-3000:]}
+
+
+def chain_specs(ck):
+    """2- and 3-matmul chains (fused mapspace, not enumerable here): DRAM + a GLB that is either tight or so large that
+    it never binds, slow and expensive DRAM in some, so that the energy-latency front has several points and ties."""
+    from checks import c06
+    thorough = ck.tier == "thorough"
+    rng = random.Random(ck.seed * 53 + 202)
+    specs = []
+    for n, glbs, bc in ((3, (1 << 20,), (4,)), (3, (1 << 20,), (2, 4)), (2, (1 << 20,), (4, 8)), (3, (256, 512), (2, 4)))[: 4 if thorough else 3]:
+        for rep in range(2 if thorough else 1):
+            a, w, world = c06.chain_spec(rng, n, glb_choices=glbs, bound_choices=bc, m=4)
+            # several DRAM / GLB cost ratios: a slow GLB and an expensive DRAM give latency ties at different energies
+            tp, e_dram = rng.choice([(1, 10), (4, 2), (2, 8)])
+            a = a.replace("throughput: 4}", "throughput: %d}" % tp)
+            a = re.sub(r"energy: \d+, throughput: 2}", "energy: %d, throughput: 2}" % e_dram, a, count=1)
+            specs.append((a, w, world))
+    return specs
+
+
+def chain_part(ck):
+    """Clauses (2) and (3) on fused mapspaces that cannot be enumerated: the front the mapper returns for matmul chains
+    must not contain a mapping strictly dominated by another returned one, nor two with one objective vector
+    (decided by spec/Fronts.tla with the returned set as its own candidate set; completeness is C13 / C14's part)."""
+    import os
+    from concurrent.futures import ProcessPoolExecutor
+    specs = chain_specs(ck)
+    d = os.path.join(ck.work, "chains")
+    jobs = [(a, w, mset, d) for a, w, world in specs for mset in MSETS]
+    with ProcessPoolExecutor(6) as ex:
+        outs = list(ex.map(_chain_job, jobs))
+    cases, meta = [], {}
+    for ji, (job, o) in enumerate(zip(jobs, outs)):
+        ck.evaluations += 1
+        if "exception" in o:
+            ck.impl_errors += 1
+            if ck.impl_error_sample is None:
+                ck.impl_error_sample = {"case": "chain job %d" % ji, "traceback": o["exception"] + "\n" + o["traceback"]}
+            continue
+        world, mset = specs[ji // len(MSETS)][2], job[2]
+        ret = [vec_ret(world, mset, row) for row in o["rows"]]
+        if not ret:
+            continue
+        rc, rr = mc.rank_columns(ret, ret)
+        cid = "chain%d/%s" % (ji, "+".join(mset))
+        cases.append({"id": cid, "kind": "front", "cands": rc, "ret": rr})
+        meta[cid] = (job, ret)
+    if not cases:
+        raise Machinery("no chain run produced a result")
+    verdicts = mc.fronts_verdicts(ck, cases, tag="chainfronts")
+    sizes = []
+    for cid, v in verdicts.items():
+        job, ret = meta[cid]
+        ck.traces += 1
+        sizes.append(len(ret))
+        if len(ret) >= 2:
+            ck.count_nontrivial(cid)
+        for clause, name in (("dominated", "returned-mapping-dominated"), ("duplicate", "duplicate-objective-vector")):
+            if v[clause]:
+                r = v[clause] - 1
+                ck.violation("C02/chain/%s/%s" % (name, "+".join(job[2])),
+                             "matmul chain: returned mapping #%d with objectives %s is %s; returned front (%d rows): %s"
+                             % (r, [str(x) for x in ret[r]],
+                                "strictly dominated by another returned mapping" if clause == "dominated" else "returned twice",
+                                len(ret), [[str(x) for x in q] for q in ret][:16]),
+                             {"chain": {"arch": job[0], "workload": job[1]}, "metrics": list(job[2]), "clause": clause})
+                break
+    ck.extra["chain_front_sizes"] = sizes
+
+
 def run(ck: Check):
     thorough = ck.tier == "thorough"
+    chain_part(ck)
     ck.rule = ("micro-specs and enumeration as in C01; the mapper runs with ENERGY|LATENCY and ENERGY|LATENCY|RESOURCE_USAGE; "
                "TLC decides completeness / non-dominance / no duplicates on rank-transformed vectors. Non-trivial = "
                "(micro-spec, metric set) whose enumerated front has at least two points; distinct by (world, metrics).")
@@ -113,10 +208,26 @@ def replay(path):
     import os
     from harness.core import Check
     rec = json.load(open(path))
-    w, mset = rec["world"], tuple(rec["metrics"])
     ck = Check("C02", "quick", 0)
     ck.work = os.path.join(os.path.dirname(os.path.abspath(path)), "_replay_tmp")
     os.makedirs(ck.work, exist_ok=True)
+    if "chain" in rec:
+        mset = tuple(rec["metrics"])
+        o = _chain_job((rec["chain"]["arch"], rec["chain"]["workload"], mset, os.path.join(ck.work, "chain")))
+        if "exception" in o:
+            print(o["traceback"]); return 2
+        world = {"level": {"DRAM": 0, "GLB": 1}, "istoll": {"DRAM": False, "GLB": False}, "size": {"DRAM": 0, "GLB": 1}}
+        ret = [vec_ret(world, mset, row) for row in o["rows"]]
+        rc, rr = mc.rank_columns(ret, ret)
+        v = mc.fronts_verdicts(ck, [{"id": "r", "kind": "front", "cands": rc, "ret": rr}])["r"]
+        print("verdict:", v)
+        print("returned:", [[str(x) for x in r] for r in ret])
+        if v["dominated"] or v["duplicate"]:
+            print("VIOLATION property=C02 replay=%s" % path)
+            return 1
+        print("no disagreement on this case")
+        return 0
+    w, mset = rec["world"], tuple(rec["metrics"])
     priced, results = c01.collect(ck, [w], [mset])
     res = results[(w["id"], mset)]
     if "exception" in res:
